@@ -3,6 +3,7 @@ From Coq Require Import String Lia.
 From PlzV Require Import Base.Harness Model.C16_Syntax Model.C16_Ops Model.C16_Prim Model.C16_Eval Model.C16.
 From PlzV Require Import Proof.C16.
 Local Open Scope list_scope.
+Local Open Scope Z_scope.
 
 (* ---- the property on one interpreter: package P2 parsed alone, and after package P1 ---- *)
 Definition after_of (o : outcome) : option (list (str * obs)) := match o with OGlobals a _ => Some a | _ => None end.
@@ -86,7 +87,7 @@ Theorem frozen_index_assign_fails : forall st idx v,
 Proof. intros. split; intros; reflexivity. Qed.
 
 (* pyList.Freeze is SHALLOW: the wrapper goes around the original slice, the elements are left as they are *)
-Theorem freeze_list_shallow : forall fuel sl st, freeze Asp (S fuel) (VList sl) st = Ok (VFrozenList sl, st).
+Theorem freeze_list_shallow : forall fuel sl st, freeze (S fuel) (VList sl) st = Ok (VFrozenList sl, st).
 Proof. reflexivity. Qed.
 
 Lemma nth_list_set_eq : forall {A} (l : list A) i x dflt, (i < length l)%nat -> nth i (list_set i x l) dflt = x.
